@@ -2,6 +2,7 @@ package main
 
 import (
 	"fmt"
+	"os"
 	"go/constant"
 	"go/types"
 	"math/big"
@@ -26,6 +27,8 @@ type EvalCtx struct {
 	override map[ssa.Value]Value
 	at       *ssa.BasicBlock // program point for SSA name resolution (loop head), nil = function boundary
 	inQuant  int
+	assumeMode bool
+	inOld    bool
 	pkg      string
 	declareRegions bool
 	atEnd    bool // resolve SSA names at the end of block `at` (returns) instead of its entry
@@ -130,10 +133,10 @@ func (c *EvalCtx) eval(e *Expr) CV {
 		if c.old == nil {
 			evalFail("old() not available here")
 		}
+		// names keep their meaning at the current program point; memory is the entry state
 		sub := *c
 		sub.st = c.old
-		sub.at = nil
-		sub.override = nil
+		sub.inOld = true
 		return sub.eval(e.Args[0])
 	case "un":
 		switch e.Name {
@@ -677,6 +680,14 @@ func (c *EvalCtx) evalCall(e *Expr) CV {
 		v := arg(0)
 		var terms []*Term
 		collectTerms(v.V, &terms)
+		if c.assumeMode {
+			// a loop invariant poolfree(e), proved on entry and preserved, is being assumed at the
+			// loop head: the havoc symbols standing for e there are clean from now on
+			for _, t := range terms {
+				markClean(vc, t)
+			}
+			return CV{VT{B.True()}, nil}
+		}
 		for _, t := range terms {
 			if mentionsPoolEntry(vc, t) {
 				return CV{VT{B.False()}, nil}
@@ -782,6 +793,11 @@ func (c *EvalCtx) resolveName(name string) CV {
 	if c.forceNames {
 		if v, ok := c.names[name]; ok && v.T == nil {
 			return v
+		}
+	}
+	if c.inOld {
+		if v, ok := c.names[name]; ok {
+			return v // old(x) of a parameter is its entry value, even where a loop variable shadows it
 		}
 	}
 	if c.at != nil {
@@ -1071,10 +1087,20 @@ func mentionsPoolEntry(vc *VC, t *Term) bool {
 			return false
 		}
 		seen[t] = true
-		if t.op == "var" && strings.HasPrefix(t.name, "H0_F_") && (strings.Contains(t.name, ".RuntimeContext.") || strings.Contains(t.name, ".Option.")) {
-			return true
+		if t.op == "var" && !vc.cleanVars[t] && !strings.HasSuffix(t.name, ".RuntimeContext.Option") && (strings.Contains(t.name, ".RuntimeContext.") || strings.Contains(t.name, ".Option.")) {
+			// entry contents (any epoch) and loop-havocked contents of a pooled struct class are
+			// tainted; values written by a callee under contract (cv_) are not
+			if (strings.HasPrefix(t.name, "H") && strings.Contains(t.name, "_F_")) || strings.HasPrefix(t.name, "hv_F_") {
+				if os.Getenv("GOVC_DBGPOOL") != "" {
+					fmt.Fprintln(os.Stderr, "poolfree: tainted by", t.name)
+				}
+				return true
+			}
 		}
-		for _, a := range t.args {
+		for i, a := range t.args {
+			if (t.op == "select" || t.op == "store") && i == 1 {
+				continue // which cell is accessed may depend on the pooled object's address; its value does not
+			}
 			if walk(a) {
 				return true
 			}
@@ -1082,4 +1108,26 @@ func mentionsPoolEntry(vc *VC, t *Term) bool {
 		return false
 	}
 	return walk(t)
+}
+
+// markClean: loop-havoc symbols in t are declared independent of pooled contents.
+func markClean(vc *VC, t *Term) {
+	seen := map[*Term]bool{}
+	var walk func(t *Term)
+	walk = func(t *Term) {
+		if seen[t] {
+			return
+		}
+		seen[t] = true
+		if t.op == "var" && (strings.HasPrefix(t.name, "hv_F_") || (strings.HasPrefix(t.name, "H") && strings.Contains(t.name, "_F_"))) {
+			vc.cleanVars[t] = true
+		}
+		for i, a := range t.args {
+			if (t.op == "select" || t.op == "store") && i == 1 {
+				continue
+			}
+			walk(a)
+		}
+	}
+	walk(t)
 }
